@@ -8,6 +8,7 @@ import (
 	"bytes"
 	"encoding/binary"
 	"fmt"
+	"io"
 	"math"
 	"strings"
 
@@ -279,9 +280,12 @@ func (c *Ctx) c07MeshGen(oob bool) modeling.Mesh {
 	return m
 }
 
-func c07ReadAns(bs []byte) string {
+func c07ReadAns(bs []byte) string { return c07ReadVia(bytes.NewReader(bs)) }
+
+func c07ReadVia(in io.Reader) string {
+	defer objstlDrain(in)
 	return Guard(func() string {
-		b, err := stl.Read(bytes.NewReader(bs))
+		b, err := stl.Read(in)
 		if err != nil {
 			return "err"
 		}
@@ -289,10 +293,13 @@ func c07ReadAns(bs []byte) string {
 	})
 }
 
-func c07ReadMeshAns(bs []byte) (string, *modeling.Mesh) {
+func c07ReadMeshAns(bs []byte) (string, *modeling.Mesh) { return c07ReadMeshVia(bytes.NewReader(bs)) }
+
+func c07ReadMeshVia(in io.Reader) (string, *modeling.Mesh) {
+	defer objstlDrain(in)
 	var mm *modeling.Mesh
 	s := Guard(func() string {
-		m, err := stl.ReadMesh(bytes.NewReader(bs))
+		m, err := stl.ReadMesh(in)
 		if err != nil {
 			return "err"
 		}
@@ -363,6 +370,7 @@ func (c *Ctx) c07ReencodeCase() {
 	c.Emit("c07.holds.reencode", hx(bs)+" "+out, "true")
 	ans, _ := c07ReadMeshAns(bs)
 	c.Emit("c07.readmesh", hx(bs), ans)
+	c.c07Readers(bs, c.Rng.Intn(8) == 0)
 }
 
 func (c *Ctx) c07MalformedCase() {
@@ -392,6 +400,7 @@ func (c *Ctx) c07MalformedCase() {
 	c.Emit("c07.read", hx(bs), c07ReadAns(bs))
 	ans, _ := c07ReadMeshAns(bs)
 	c.Emit("c07.readmesh", hx(bs), ans)
+	c.c07Readers(bs, c.Rng.Intn(8) == 0) // truncated / over-long inputs through the reader family as well
 }
 
 func (c *Ctx) c07MeshCase(oob bool) {
@@ -437,6 +446,8 @@ func (c *Ctx) c07MeshCase(oob bool) {
 			c.Note("stored-normals.all-nonzero")
 		}
 	}
+	c.c07PipeFromWriter(m, bs)
+	c.c07Readers(bs, c.Rng.Intn(8) == 0)
 	rans, back := c07ReadMeshAns(bs)
 	// the bytes WriteMesh produced may contain non-canonical NaN words, which the model does not see
 	// through float arithmetic; ReadMesh's answer is canonicalised per float64, so this is exact.
@@ -449,6 +460,48 @@ func (c *Ctx) c07MeshCase(oob bool) {
 			c.Note("roundtrip.no-normals-back")
 		}
 	}
+}
+
+// the same bytes through the reader family: every answer is a model line; with all=true the answers also go to
+// the oracle `readers_agree` (identical for every reader)
+func (c *Ctx) c07Readers(bs []byte, all bool) {
+	kinds := objstlReaders
+	if !all {
+		k := c.Rng.Intn(len(objstlReaders))
+		kinds = objstlReaders[k : k+1]
+	}
+	var ra, ma []string
+	for _, k := range kinds {
+		a := c07ReadVia(k.mk(bs))
+		b, _ := c07ReadMeshVia(k.mk(bs))
+		c.Emit("c07.read", hx(bs), a)
+		c.Emit("c07.readmesh", hx(bs), b)
+		c.Note("reader." + k.name)
+		ra = append(ra, hx([]byte(a)))
+		ma = append(ma, hx([]byte(b)))
+	}
+	if all {
+		c.Emit("c07.holds.readers_agree", fmt.Sprintf("%d %s", len(ra), strings.Join(ra, " ")), "true")
+		c.Emit("c07.holds.readers_agree", fmt.Sprintf("%d %s", len(ma), strings.Join(ma, " ")), "true")
+	}
+}
+
+// the REAL writer on the other end of a pipe: stl.WriteMesh → io.Pipe → stl.ReadMesh / stl.Read
+func (c *Ctx) c07PipeFromWriter(m modeling.Mesh, bs []byte) {
+	for pass := 0; pass < 2; pass++ {
+		pr, pw := io.Pipe()
+		go func() {
+			defer func() { recover(); pw.Close() }()
+			stl.WriteMesh(pw, m)
+		}()
+		if pass == 0 {
+			a, _ := c07ReadMeshVia(pr)
+			c.Emit("c07.readmesh", hx(bs), a)
+		} else {
+			c.Emit("c07.read", hx(bs), c07ReadVia(pr))
+		}
+	}
+	c.Note("reader.pipe-from-WriteMesh")
 }
 
 // large cases with tagged (triangle-dependent, non-zero) values: sizes that cross plausible internal block /
@@ -477,6 +530,8 @@ func (c *Ctx) c07BigCase(n int, withNormals bool) {
 	}
 	bs := buf.Bytes()
 	c.Emit("c07.holds.size", fmt.Sprintf("%d %s", n, hx(bs)), "true")
+	c.c07PipeFromWriter(m, bs)
+	c.c07Readers(bs, n == 82 || n == 4096)
 	c.Emit("c07.read", hx(bs), c07ReadAns(bs))
 	rans, back := c07ReadMeshAns(bs)
 	c.Emit("c07.readmesh", hx(bs), rans)
